@@ -5,8 +5,8 @@ R1 definedness: in every spline operation, each region of a persistent buffer th
    the algebraic summaries for n = 1, 2 and several n >= 3 (regions.py);
 R2 dead write-sets: the spline classes have no mutable member and no const_cast, so const queries cannot write; the
    scratch members written by the non-const query are (by R1) never read before being redefined;
-R3 optimizer workspace: Workspace::resize resizes every sized buffer; every buffer is zeroed / assigned per evaluation
-   before use (zeroing order is C07-R5 / C07-R1 / C07-R3).
+R3 optimizer workspace: Workspace::resize resizes every sized buffer; evaluate sizes the workspace first; every workspace
+   buffer that an evaluation reads has been wholly defined earlier in that evaluation on every path (wsdef.py).
 """
 import copy
 
@@ -15,9 +15,10 @@ import sympy as sp
 from ..facts import Broken, pp, loc, walk
 from ..effects import Effects, callee
 from .. import regions, sym
+from ..wsdef import WsDef
 from ..regions import Replay, State, trace_operation
 from ..model import spline_model
-from .common import facts_for, alg_classes, full_classes, SPLINES, optimizer_classes, is_this_mem
+from .common import facts_for, alg_classes, full_classes, SPLINES, optimizer_classes, is_this_mem, is_mem_of_var
 
 QUERIES = ["getEnergy", "getEnergyPartialGradByCoeffs", "getEnergyPartialGradByTimes", "getEnergyGradTimes", "getEnergyGradInnerPoints",
            "getEnergyGradBoundary", "propagateGradInternal"]
@@ -153,6 +154,38 @@ def run(chk):
                     v = R.violations
                     chk.ob("C10-R1", "%s %s with N=%d reads only regions defined by the latest update or earlier in the query" % (cls, qn, n), not v, loc(q),
                            "%d region reads; %s" % (R.reads, v[0] if v else "all covered"), construct="%s/%s/N%d/%s" % (cls, qn, n, ("%s[%s]" % (v[0]["cont"], v[0]["key"])) if v else "ok"))
+    # out-parameter wrappers used by the optimizer: each field of the Gradients out-parameter is wholly assigned, or handed
+    # to a traced query as a non-const out-parameter, before anything reads it
+    for short in SPLINES:
+        for cls in full_classes(F, short, ("update", "propagateGrad")):
+            for f in [g for g in F.funcs(cls) if g["name"] in ("getEnergyGrad", "propagateGrad") and g.get("body") and g["params"]
+                      and g["params"][-1]["ty"].get("ref") and not g["params"][-1]["ty"].get("const") and g["params"][-1]["ty"].get("c") == "record"]:
+                prm = g_out = f["params"][-1]
+                rec = F.records.get(prm["ty"].get("n"))
+                if rec is None:
+                    raise Broken("record of out-parameter %s of %s not extracted" % (prm["name"], f["full"]))
+                state = {x["name"]: None for x in rec["fields"]}
+                for st in f["body"]["body"]:
+                    e = st.get("e") if st.get("k") == "expr" else None
+                    done = set()
+                    if e is not None and e.get("k") == "call" and callee(e).get("op") == "=" and is_mem_of_var(e.get("obj"), prm["id"]):
+                        fld = e["obj"]["field"]
+                        if not any(is_mem_of_var(n, prm["id"], fld) for n in walk(e["args"])) and state.get(fld) is None:
+                            state[fld] = "assigned"
+                            done.add(fld)
+                    elif e is not None and e.get("k") == "call" and callee(e).get("name") in QUERIES and callee(e).get("cls") == cls:
+                        pm = callee(e).get("pm", [])
+                        for i, a in enumerate(e["args"]):
+                            if is_mem_of_var(a, prm["id"]) and i < len(pm) and pm[i] == "ref" and state.get(a["field"]) is None:
+                                state[a["field"]] = "out-parameter of " + callee(e)["name"]
+                                done.add(a["field"])
+                    for n in walk(st):
+                        if is_mem_of_var(n, prm["id"]) and n["field"] not in done and state.get(n["field"]) is None:
+                            state[n["field"]] = "BAD: touched at line %s before being defined" % n.get("line", st.get("line"))
+                for fld, how in state.items():
+                    chk.ob("C10-R1", "%s::%s/%d defines field %s of its out-parameter before anything reads it" % (cls, f["name"], len(f["params"]), fld), how is not None and not how.startswith("BAD"), loc(f),
+                           str(how), construct="%s/%s%d/out/%s" % (cls, f["name"], len(f["params"]), fld))
+                chk.saw(f)
     chk.floor("C10-R1", 4 * 5 * 8)
     chk.floor("C10-R2", 12)
     # ---- R3 workspace ---------------------------------------------------------------------------------------
@@ -172,14 +205,29 @@ def run(chk):
         ifs = [nd for nd in walk(rz["body"]) if nd.get("k") == "if"]
         okg = len(ifs) == 1 and any(nd.get("k") == "call" and callee(nd).get("name") == "size" and is_this_mem(nd.get("obj")) and nd["obj"]["field"] in resized for nd in walk(ifs[0]["cond"]))
         chk.ob("C10-R3", "%s::Workspace::resize is keyed on the size of a buffer it resizes itself" % cls, okg, loc(rz), pp(ifs[0]["cond"]) if ifs else "", construct="%s/Workspace/key" % cls)
-        # evaluate() resizes the workspace before using it
+        # evaluate(): the workspace is sized for the current problem before any buffer is touched, and every buffer that
+        # is read has been wholly defined earlier in the same evaluation on every path (wsdef.py)
+        spline_cls = next(x["ty"]["n"] for x in ws["fields"] if x["name"] == "spline")
         for f in [g for g in F.funcs(cls, "evaluate") if len(g["params"]) == 7]:
+            inst = f["full"].split("evaluate")[1][:40]
             body = f["body"]["body"]
-            idx_resize = [k for k, s_ in enumerate(body) if s_.get("k") == "expr" and s_["e"].get("k") == "call" and callee(s_["e"]).get("fid") == rz["fid"]]
-            idx_first_use = [k for k, s_ in enumerate(body) if s_.get("k") in ("for", "rfor")]
-            ok = len(idx_resize) == 1 and idx_first_use and idx_resize[0] < idx_first_use[0] and pp(body[idx_resize[0]]["e"]["args"][0]) == "num_segments_"
-            chk.ob("C10-R3", "%s evaluate sizes the workspace for the current problem before touching it" % cls, ok, loc(f), "", construct="%s/evaluate%s/resize-first" % (cls, f["full"].split("evaluate")[1][:40]))
-    chk.floor("C10-R3", 30)
+            W = WsDef(F, cls, cls + "::Workspace", spline_cls, resized)
+            idx_resize = [k for k, s_ in enumerate(body) for nd in walk(s_) if nd.get("k") == "call" and callee(nd).get("fid") == rz["fid"] and s_.get("k") in ("expr", "decl")]
+            idx_first_use = [k for k, s_ in enumerate(body) if W.fields_in(s_)]
+            rzcall = [nd for s_ in body for nd in walk(s_) if nd.get("k") == "call" and callee(nd).get("fid") == rz["fid"]]
+            ok = len(idx_resize) == 1 and idx_first_use and idx_resize[0] < idx_first_use[0] and pp(rzcall[0]["args"][0]) == "num_segments_"
+            chk.ob("C10-R3", "%s evaluate sizes the workspace for the current problem before touching it" % cls, ok, loc(f), "", construct="%s/evaluate%s/resize-first" % (cls, inst))
+            W.fn_stack.append(f)
+            W.stmts(body)
+            used = [x for x in W.fields if W.mentions[x]]
+            for x in used:
+                pr = [p_ for p_ in W.problems if p_["field"] == x]
+                d = W.defs.get(x)
+                chk.ob("C10-R3", "%s evaluate%s: %s is wholly defined by this evaluation before it is read" % (cls, inst, x), not pr,
+                       loc(pr[0]["fn"], pr[0]["node"]) if pr else (loc(d[2], d[0]) if d else loc(f)),
+                       pr[0]["what"] + " (%s)" % pp(pr[0]["node"])[:120] if pr else ("defined by %s" % d[1] if d else "only written"), construct="%s/evaluate%s/defined/%s" % (cls, inst, x))
+            chk.saw(f)
+    chk.floor("C10-R3", 30 + 8 * 10)
     chk.not_decided = ["bit-identity follows from 'same operations on the same operands' (IEEE determinism); PPolyND's lazy caches are C11",
                        "sizes other than those enumerated are covered by affinity of all index expressions (checked) - regions for n >= 7 are translates of each other"]
     chk.trusted.append("Eigen resize() leaves the contents unspecified unless the size is unchanged (then it keeps them): both count as 'not defined by this operation'")
